@@ -58,6 +58,8 @@ class LibInterp(Interp):
                 raise HostOrdering(e)
         if name == 'callable' and args and isinstance(args[0], Sym) and args[0].kind == 'val' and len(args[0].args) > 2:
             return args[0].args[2] == 'function'
+        if name == 'type' and len(args) == 1 and isinstance(args[0], Sym) and args[0].kind == 'val' and len(args[0].args) > 2:
+            return ('typeof', args[0].args[2])
         if name == 'isinstance' and args and isinstance(args[0], Sym) and args[0].kind == 'val' and len(args[0].args) > 2:
             from .atoms import CLASS_NAMES, INSTANCE_OF
             atom = args[0].args[2]
@@ -899,6 +901,10 @@ def datetime_new_samples(tier='quick'):
     for d in (-10000, 10000, -9999, 5000):
         for mo in (1, 3, 7, 12):
             out.append((2023, mo, d))
+    must = []
+    for y, mo, d in ((2097, 1, 1500), (1896, 3, 4000), (1899, 12, 1462), (2099, 1, -1500), (1896, 1, 1462), (2096, 2, 2000), (2101, 6, -3000), (1903, 3, -1462), (1999, 1, 1461), (1999, 1, 1462),
+                     (2100, 3, -60), (2100, 1, 60), (1900, 2, 29), (2000, 2, 29 + 366), (1700, 1, 9000), (2200, 12, -9000)):
+        must.append((y, mo, d))
     for date in ((2024, 2, 28), (2023, 12, 31), (2023, 1, 1)):
         for h in (-25, -24, -1, 0, 23, 24, 49):
             for mi in (-61, -1, 0, 59, 60):
@@ -908,7 +914,7 @@ def datetime_new_samples(tier='quick'):
     out += [(2024, 2, 28, 49), (2024, 12, 31, 23, 59, 60), (2024, 12, 31, 23, 59, 59, 1000), (2023, 3, 1, -1), (2023, 1, 1, 0, 0, -1), (2023, 1, 1, 0, 0, 0, -1)]
     if tier != 'thorough':
         out = out[::5] + out[-6:]
-    return out
+    return out + must
 
 
 def run_datetime_new(repo, libfuncs, tier='quick', rule='E6l'):
@@ -1092,12 +1098,16 @@ def json_samples(tier='quick'):
     if tier == 'thorough':
         import itertools as _it
         strings += [''.join(p) for n in (2, 3) for p in _it.product('a.0,]}"\\\n', repeat=n)][::7]
-    numbers = [0, 1, -1, 1.0, -1.0, 10.0, 100.0, 1.5, -2.25, 0.1, 1e20, 1.5e20, 1e-7, 1e21, 123456789.0, 1e15]
+    numbers = [0, 1, -1, 1.0, -1.0, 10.0, 100.0, 1.5, -2.25, 0.1, 1e20, 1.5e20, 1e-7, 1e21, 123456789.0, 1e15, -1e15, 1e16, -1e16, -1.5e16, 1e17, -1e17, -1e20, 2.0 ** 53, 2.0 ** 63, -2.0 ** 63,
+               9007199254740993, -(10 ** 17)]
     vals = [None, True, False] + numbers + strings
     vals += [[], {}, [1.0], [1.0, 2.5, 'a', None, True], {'a': 1.0}, {'b': 1, 'a': 2}, {'b': {'d': 1.0, 'c': [2.0, {'z': 0, 'y': 1}]}, 'a': [1.0, [2.0, [3.0]]]},
              ['1.0', 1.0, '1.0'], {'1.0': 1.0, 'k.0]': [10.0]}, [[], {}, [[]], {'a': {}}], {',]': 1, ']': 2}, {'a\n': 'b\n'}, ['C:\\tmp\\', 3.0, 'x'], {'p': 'C:\\', 'size': 3.0, 'q': 's'},
              [1e20, 1.0, '1e20'], {'': ''}, ['end\\', 1.0, 'next'], ['1.0,\n', 2.0]]
     vals += [[s_] for s_ in strings[:12]] + [{s_: s_} for s_ in strings[:12]]
+    # line-separator-like characters next to an integral float; strings with an odd number of quotes before a number; a backslash-ending string before a string with .0
+    vals += [['a\u2028b', 1.0], {'k\u0085': 2.0, 'z': 'p\u2029q'}, ['say "hi', 1.0, 'x'], {'q"': 3.0, 'r': 4.0}, ['a\\', 'x.0,y'], ['b\\', 'x.0', 5.0], {'a\\': 'k.0}', 'b': 1.0},
+             ['\x0c', 2.0], ['\r', 3.0, '\n'], [-1e16, -1e15], [1e16, 1e15]]
     return vals
 
 
@@ -1258,4 +1268,31 @@ def run_data_accounting(repo, rule='E6l'):
                             break
                     if has_globals and (G.d != {'g': 0.0} or options.d.get('globals') is not G):
                         problems.append((fname, f'{desc}: the run\'s globals object is modified / replaced ({options.d.get("globals")!r})'))
+    # a history: the same variables object and the same options through several calls with other statements counted in between
+    for fname, mk in calls.items():
+        func = mod.funcs.get(fname)
+        n += 1
+        it = CountingDataInterp(repo, mod, rule)
+        G = ADict({'g': 0.0})
+        options = ADict({'statementCount': 5, 'maxStatements': 1000, 'globals': G})
+        variables = _abs({'v': 1.0})
+        total = 5
+        ok = True
+        for step in range(3):
+            before = it.n_eval
+            got = it.run(func, mk(_abs(rows), variables, options))
+            if got[0] == 'raise':
+                problems.append((fname, f'{fname} called {step + 1} times with the same variables object raises {got[1]}'))
+                ok = False
+                break
+            total += it.n_eval - before
+            if options.d.get('statementCount') != total:
+                problems.append((fname, f'{fname} called {step + 1} times with the same variables object and options (other statements counted in between): the run\'s options carry '
+                                        f'statementCount {options.d.get("statementCount")!r} after call {step + 1}; statements before + expression evaluations = {total}'))
+                ok = False
+                break
+            options.d['statementCount'] += 2          # two other statements of the run
+            total += 2
+        if ok and set(options.d) - {'statementCount', 'maxStatements', 'globals'}:
+            problems.append((fname, f'{fname} leaves new members in the run\'s options: {sorted(set(options.d) - {"statementCount", "maxStatements", "globals"})}'))
     return n, problems
